@@ -30,9 +30,9 @@ func init() {
 			for r := 0; r < reps; r++ {
 				for _, dir := range []string{"forward", "reverse"} {
 					for _, fc := range []string{"on", "bothnofc"} {
-						for _, pt := range []string{"client.finish.afterDone", "client.finish.betweenPublish", "client.cancel.beforeReceiverCancel", "client.recv.beforeAccept"} {
+						for _, pt := range []string{"client.finish.afterDone", "client.finish.betweenPublish", "client.cancel.beforeReceiverCancel", "client.recv.beforeAccept", "cancel-frame-send"} {
 							for _, cause := range []string{"cancel", "deadline"} {
-								for _, shape := range []string{"ServerStream", "Bidi", "Unary"} {
+								for _, shape := range []string{"ServerStream", "Bidi", "Unary", "MidSend"} {
 									cfg := WorldCfg{Dir: dir}
 									if fc == "bothnofc" {
 										cfg.ClientNoFC, cfg.ServerNoFC = true, true
@@ -98,10 +98,27 @@ func famFinishWindow(w *World, c *Case, rng *rand.Rand) {
 	n := c.p("msgs", 2)
 	w.SigExtra = fmt.Sprintf("%s/%s/%s/%d/%d", point, cause, shape, n, c.p("when", 0))
 	// the first arrival at the point is held for a millisecond of virtual time
-	w.installYield(&YieldPlan{Parks: map[string][]time.Duration{point: {time.Millisecond}}})
+	if point == "cancel-frame-send" {
+		// the detached goroutine that puts the cancel frame on the carrier is scheduled late
+		w.installYield(&YieldPlan{Fn: func(p string, n int) {
+			if p == "carrier.send.beforeLock" && callerHas("cancelStream.func") {
+				w.Stat("finishwindow_cancel_frame_delayed", 1)
+				time.Sleep(50 * time.Millisecond) // (the handler starts reading after 10 ms)
+			}
+		}})
+	} else {
+		w.installYield(&YieldPlan{Parks: map[string][]time.Duration{point: {time.Millisecond}}})
+	}
 	var s *RPCSpec
 	trl := metadata.MD{"t": {"1", "2"}}
 	switch shape {
+	case "MidSend":
+		// the caller is blocked in the middle of a message larger than the window (the handler reads
+		// only later) when the cancellation strikes; like any application with a deferred CloseSend it
+		// then half-closes, and drains
+		s = &RPCSpec{ID: "fw", Method: "ClientStream",
+			Client:  []Op{{K: "open"}, {K: "send", N: 1000}, {K: "send", N: 100000}, {K: "close"}, {K: "sync", Name: "drain"}, {K: "recvall"}},
+			Handler: []Op{{K: "sync", Name: "drain"}, {K: "recvall"}, {K: "send", N: 3}, {K: "ret"}}}
 	case "Unary":
 		s = &RPCSpec{ID: "fw", Method: "Unary", UseTrailerOpt: true, UseHeaderOpt: true,
 			Client:  []Op{{K: "invoke", N: 10}},
@@ -129,7 +146,7 @@ func famFinishWindow(w *World, c *Case, rng *rand.Rand) {
 	w.Env.Signal("drain")
 	w.Advance(time.Second)
 	w.yield.mu.Lock()
-	held := w.yield.Hits[point] > 0
+	held := w.yield.Hits[point] > 0 || point == "cancel-frame-send"
 	w.yield.mu.Unlock()
 	if held {
 		w.Stat("finishwindow_held", 1)
